@@ -12,7 +12,11 @@ SPEC = {
               extra_args=["c07"],
               rule="each case is one scenario: a telemetry directory with count files written by the real counter "
                    "library (1-3 program builds x 1-3 weeks; active and expired; without counters; truncated, "
-                   "damaged, random and empty files; same-week files with different begins; in 55 % of the scenarios an "
+                   "damaged, random and empty files; in 22 % of the scenarios an expired file with a VALID header and metadata "
+                   "whose hash chains leave the file (260 long-named counters so that it grows beyond its first page, then "
+                   "truncated to 16 KiB; or the last record of a chain linked past the end) - unparseable by an independent "
+                   "structural check of the v1 layout in the harness, whatever the parser under test says; "
+                   "same-week files with different begins; in 55 % of the scenarios an "
                    "IDENTITY GROUP: 2-4 files of one report week whose program identities differ from a base identity "
                    "in exactly ONE of the five fields Program (another last path element, or the same one under another "
                    "directory: count-file names that differ in the date only) / Version / GoVersion (set through the library's build "
@@ -25,7 +29,10 @@ SPEC = {
                    "date) and 1-3 real uploader.Run calls executed as threads of the deterministic scheduler, one "
                    "os/http call per step ('os' and 'net/http' of internal/upload rewritten to yielding shims in the "
                    "scratch copy): sequential runs (Run; Run), random and bounded-context-switch interleavings, and "
-                   "the scripted three-uploader race; thorough tier adds the sweeps: uploader A runs i = 0..35 calls, then B to "
+                   "the scripted three-uploader race, the scripted scenario 'grow' (two runs of one process: the first "
+                   "finds the week's files still active and only parses them for their end date, then the programs go on "
+                   "counting - same files, larger values, a new counter -, the second run after the week's end must fold "
+                   "the values the files have THEN); thorough tier adds the sweeps: uploader A runs i = 0..35 calls, then B to "
                    "completion, then A, and A i calls / B j calls / rest, over a 9x9 grid. After every step local/ and upload/ (names, content classes, "
                    "report JSON parsed and sent per program entry: id of the full five-field identity, then (id, value) "
                    "of every entry of Counters and of Stacks - a stack name in Counters or a counter name in Stacks gets "
